@@ -28,16 +28,17 @@ import (
 var seedv int64
 
 type Case struct {
-	T    int    `json:"type"`
-	KeyA int    `json:"client_key"`   // key the request was created for
-	KeyB int    `json:"issuer_key"`   // key that evaluates
-	ReqI int    `json:"state_of"`     // request whose state finalizes
-	ReqJ int    `json:"response_for"` // request that was evaluated
-	Mut  string `json:"mutation"`     // none | bit | trunc | ext | elems | reeval
-	Arg  int    `json:"arg,omitempty"`
-	Map  []int  `json:"element_map,omitempty"` // type 5: output position -> original element index
-	N    int    `json:"batch,omitempty"`
-	Salt int    `json:"salt_kind,omitempty"` // type 2: 0 = CreateTokenRequest; k>0 = CreateTokenRequestWithBlind with a salt of saltLens[k-1] bytes
+	T     int    `json:"type"`
+	KeyA  int    `json:"client_key"`   // key the request was created for
+	KeyB  int    `json:"issuer_key"`   // key that evaluates
+	ReqI  int    `json:"state_of"`     // request whose state finalizes
+	ReqJ  int    `json:"response_for"` // request that was evaluated
+	Mut   string `json:"mutation"`     // none | bit | trunc | ext | elems | reeval
+	Arg   int    `json:"arg,omitempty"`
+	Map   []int  `json:"element_map,omitempty"` // type 5: output position -> original element index
+	N     int    `json:"batch,omitempty"`
+	Salt  int    `json:"salt_kind,omitempty"`             // type 2: 0 = CreateTokenRequest; k>0 = CreateTokenRequestWithBlind with a salt of saltLens[k-1] bytes
+	After bool   `json:"after_honest_finalize,omitempty"` // the same request state has finalized the honest response of its own request just before
 }
 
 var saltLens = []int{0, 20, 47, 48, 49, 64}
@@ -306,6 +307,15 @@ func run(c Case) (string, *mc.Viol) {
 	in := mutate(resp, c)
 	var toks [][]byte
 	var ferr error
+	if c.After {
+		// a state that has already accepted its honest response must judge the next response on
+		// its own merits (nothing learnt from the first call may let a bad response through)
+		if c.KeyA == c.KeyB && c.ReqI == c.ReqJ {
+			if p := mc.Catch(func() { _, _ = finalize(append([]byte{}, resp...)) }); p != "" {
+				return "panic", &mc.Viol{Sig: fmt.Sprintf("type%d finalization panics (honest response)", c.T), What: p}
+			}
+		}
+	}
 	if p := mc.Catch(func() { toks, ferr = finalize(in) }); p != "" {
 		return "panic", &mc.Viol{Sig: fmt.Sprintf("type%d finalization panics (%s)", c.T, c.Mut), What: fmt.Sprintf("%s: %s", c.label(), p)}
 	}
@@ -401,6 +411,15 @@ func main() {
 				}
 				for e := 0; e < 3; e++ {
 					cases = append(cases, Case{T: t, KeyA: a, KeyB: a, ReqI: i, ReqJ: i, Mut: "ext", Arg: e, N: n})
+				}
+				if a == 0 && i == 0 {
+					// the same corruptions offered to a state that has just finalized its honest response
+					for bit := 0; bit < len(resp)*8; bit += 5 {
+						cases = append(cases, Case{T: t, KeyA: a, KeyB: a, ReqI: i, ReqJ: i, Mut: "bit", Arg: bit, N: n, After: true})
+					}
+					for l := 0; l < len(resp); l += 3 {
+						cases = append(cases, Case{T: t, KeyA: a, KeyB: a, ReqI: i, ReqJ: i, Mut: "trunc", Arg: l, N: n, After: true})
+					}
 				}
 			}
 		}
